@@ -56,16 +56,26 @@ Definition bz (b : bool) : Z := if b then 1 else 0.
 (* Part A.  op 0: type_vars, 1: type_var.  oc: arguments of __orig_class__ when the instance has one.
    model outcome ++ demanded outcome ++ [does the class layout have the shape the driver says;
    does the model outcome meet the demand] *)
+(* the harness numbers TypeVars below 20, type arguments from 20 *)
+Definition is_tvar (v : val) : bool := match v with VTok n => Nat.ltb n 20 | _ => false end.
+
+(* full = true: the driver says the layout has the shape of the *full* statement (the binding base got its
+   parameters through a chain of forwarding / partially binding classes) and ShBinding ts xs carries the
+   declaring class's TypeVars and the arguments resolved along the chain *)
+Definition shape_check (full : bool) (w : world) (c : nat) (o : option val) (s : shape) : bool :=
+  if full then match s with ShBinding ts xs => chain_binding_b is_tvar w c ts xs | _ => false end
+  else shape_holds_b w c o s.
+
 Definition eval_case_tv (classes : list (nat * option (list val) * list nat)) (c : nat) (oc : option (list val))
-           (op : nat) (s : shape) : list Z :=
+           (op : nat) (s : shape) (full : bool) : list Z :=
   let w := mk_world classes [] in
   let o := match oc with Some xs => Some (VAlias (VCls c) xs) | None => None end in
   let self := VInst c o in
   match op with
   | O => let r := call_n progs w no_ext FUEL "type_vars" [self] in
-         enc_outcome r ++ enc_expect (spec_type_vars s) ++ [bz (shape_holds_b w c o s); bz (meets r (spec_type_vars s))]
+         enc_outcome r ++ enc_expect (spec_type_vars s) ++ [bz (shape_check full w c o s); bz (meets r (spec_type_vars s))]
   | _ => let r := call_n progs w no_ext FUEL "type_var" [self] in
-         enc_outcome r ++ enc_expect1 (spec_type_var s) ++ [bz (shape_holds_b w c o s); bz (meets1 r (spec_type_var s))]
+         enc_outcome r ++ enc_expect1 (spec_type_var s) ++ [bz (shape_check full w c o s); bz (meets1 r (spec_type_var s))]
   end.
 
 (* Part B *)
